@@ -166,6 +166,7 @@ class CrcSys(HSystem):
     caller.  Events: building forward / backward tables for other polynomials, generic CRCs with them, and the CRC-32 helpers."""
     POLYS = [(0x82F63B78, 32), (0xA001, 16), (0xEDB88320, 32), (0xC96C5795D7870F42, 64)]
     DATA = [b'123456789', bytes(range(40, 53))]
+    LONG = expander(700, 17)
 
     def fresh(self):
         import crysp.crc as C
@@ -180,6 +181,7 @@ class CrcSys(HSystem):
     def events(self, o):
         ev = [('table', i) for i in range(len(self.POLYS))] + [('back-table', i) for i in range(len(self.POLYS))]
         ev += [('crc', i) for i in sorted(o['T'])] + [('crc-back', i) for i in sorted(o['Tb'])]
+        ev += [('crc-long', i) for i in sorted(o['T'])] + [('drop-tables', 0)]
         ev += [('crc32', 0), ('crc32', 1), ('fix', 0), ('fix-pos', 0), ('fix-pos', 1), ('back-pos', 0), ('back-pos', 1)]
         return ev
 
@@ -193,6 +195,14 @@ class CrcSys(HSystem):
         if k == 'back-table':
             o['Tb'][i] = C.crc_back_table(Bits(*self.POLYS[i]))
             return sorted((a, int(b)) for a, b in o['Tb'][i].items())
+        if k == 'drop-tables':
+            # the caller lets go of every table it holds: whatever is built next may live at the same addresses
+            o['T'].clear()
+            o['Tb'].clear()
+            return None
+        if k == 'crc-long':
+            N = self.POLYS[i][1]
+            return C.crc(self.LONG, o['T'][i], 0, (1 << N) - 1)
         if k == 'crc':
             N = self.POLYS[i][1]
             return C.crc(self.DATA[0], o['T'][i], (1 << N) - 1, (1 << N) - 1)
@@ -217,6 +227,11 @@ class CrcSys(HSystem):
             ctx.eq(K + 'crc_table', res, ('ok', [bitwise_crc(P, N, bytes([b]), 0, 0) for b in range(256)]))
         elif k == 'back-table':
             ctx.ok(K + 'crc_back_table', res[0] == 'ok' and [a for a, _ in res[1]] == list(range(256)), res)
+        elif k == 'drop-tables':
+            pass
+        elif k == 'crc-long':
+            P, N = self.POLYS[i]
+            ctx.eq(K + 'generic-crc/long-message', res, ('ok', bitwise_crc(P, N, self.LONG, 0, (1 << N) - 1)))
         elif k == 'crc':
             P, N = self.POLYS[i]
             ctx.eq(K + 'generic-crc', res, ('ok', bitwise_crc(P, N, self.DATA[0], (1 << N) - 1, (1 << N) - 1)))
@@ -255,8 +270,8 @@ def subchecks():
             bound='every width 8..64 x {top bit only, all ones, named standard, expander-derived (+3 in thorough)} x 2 patterns of length 0..9 x init/final in {0,all-ones}^2; backward computation at every position'),
         Sub('same-value-widths', pts_samevalue, run_samevalue, engine='H', chunk=1,
             bound='polynomial values A001, EDB88320, 8C, 1, C96C5795D7870F42 each used at 1-5 widths in sequence in one process (also in descending order): tables, forward and backward CRC with init in {0, all-ones, all-ones>>1}, final in {0, all-ones}'),
-        hsub('module-histories', crc_systems, lambda tier: 3 if tier == 'quick' else 4, split=lambda tier: 4 if tier == 'quick' else 15,
-             bound='one loaded crc module: crc_table / crc_back_table for CRC-32C, CRC-16/ARC, CRC-32 and CRC-64/XZ, generic forward and backward CRC with the tables built so far, crc32, crc32_fix, crc32_fix_pos, crc32_back_pos on two inputs; all histories to depth 3 (thorough 4); state = module tables + function defaults/attributes + which tables the caller holds; every answer vs zlib / bit-by-bit division'),
+        hsub('module-histories', crc_systems, lambda tier: 3 if tier == 'quick' else 5, split=lambda tier: 4 if tier == 'quick' else 15,
+             bound='one loaded crc module: crc_table / crc_back_table for CRC-32C, CRC-16/ARC, CRC-32 and CRC-64/XZ, generic forward and backward CRC (9 and 700 bytes) with the tables built so far, dropping every table the caller holds, crc32, crc32_fix, crc32_fix_pos, crc32_back_pos on two inputs; all histories to depth 3 (thorough 5); state = module tables + function defaults/attributes + which tables the caller holds; every answer vs zlib / bit-by-bit division'),
         Sub('forging', pts_forge, run_forge, engine='P', exhaustive=False,
             bound='data length 4..12 (thorough ..16) x 2 patterns x every position x targets {0, ~0, 32 single-bit words, crc32(data), 3 fixed words} and the targets that make the fixing window 00000000 / ffffffff / 00000001 / 80000000 / 00000100'),
     ]
